@@ -516,8 +516,10 @@ contract(FS, "Share.__contains__", "C19", params=dict(P, key=STR), externals=EXT
 
 contract(FS, "Share.__delitem__", "C19", params=dict(P, key=STR), externals=EXT, requires=[INV], modifies=FIELDS,
          ensures=[INV, "old(has_field(self, key))", "fields_del(self, key, %s)" % SNAP, NOSTAMP],
-         raises={"KeyError": ["not old(has_field(self, key))", "fields_same(self, %s)" % SNAP, NOSTAMP, INV]},
-         replay=dict(make=_mk))
+         raises={"KeyError": ["not old(has_field(self, key))", "fields_same(self, %s)" % SNAP, NOSTAMP]},
+         replay=dict(make=_mk),
+         note="KeyError: key sequence and map unchanged (the ghost position map of C39's invariant is not program "
+              "state; C39's odict.__delitem__ contract does not restate it on its KeyError path)")
 
 contract(FS, "Share.fetch", "C19", params=dict(P, field=STR, default=Opt(VAL)), externals=EXT, modifies=[],
          ensures=["implies(has_field(self, field), result == field_of(self, field))",
@@ -564,8 +566,9 @@ field_of.native = field.native
 
 # ================================================================================================ change / update / create
 # Arguments covered: ONE positional sequence of (name, value) pairs of ANY length (loop invariant) followed by 0, 1
-# or 2 keyword arguments with arbitrary distinct names (the three `cases`).  Positional dict arguments (iteration
-# over a.items()) are not modelled.
+# or 2 keyword arguments with arbitrary distinct names (the `cases`; create: 0 or 1 keyword argument - keyword names
+# of one call are distinct, so a second one adds paths but no interplay).  Positional dict arguments (iteration over
+# a.items()) are not modelled.
 def _setup_kwargs(E):
     """top level only: the `**kwa` of the function under verification (the engine binds an empty dict)"""
     if len(E.frames) != 1:
@@ -752,7 +755,7 @@ contract(FS, "Share.update", "C19", params=PKW, cases=KW_CASES, setup=_setup_kwa
          ensures=[INV, "result is self"] + STAMPED + CH_AFTER,
          raises={"AttributeError": [INV, NOSTAMP]}, returns=Ref("Share"), replay=KW_REPLAY)
 
-contract(FS, "Share.create", "C19", params=PKW, cases=KW_CASES, setup=_setup_kwargs, externals=EXT, requires=[INV],
+contract(FS, "Share.create", "C19", params=PKW, cases=KW_CASES[:2], setup=_setup_kwargs, externals=EXT, requires=[INV],
          assumes=["separate(self, pa)"],
          loops=CR_LOOP, modifies=FIELDS + ["self.stamp"],
          ensures=[INV, "result is self",
